@@ -12,7 +12,8 @@ func init() {
 		ID: "C14",
 		Explanation: "Structural necessary conditions of 'prepared once, failures not cached, re-prepared when lost': R1 the LRU is only touched under preparedLRU.mu (including inside execIfMissing's callback, which may use nothing but the cache it is handed); R2 the in-flight entry is added inside that callback under the key that was looked up; " +
 			"R3 in the preparing goroutine the done channel is closed by a defer registered first and every path that records an error removes the entry under the same key before it exits; R4 every cache key is built from (host id, connection keyspace, statement) in the same way at lookup, removal and eviction; R5 UNPREPARED evicts (comparing ids) and re-executes; R6 the bound-value count check dominates the construction of EXECUTE/BATCH values; R7 the cache evicts when it exceeds MaxEntries, which comes from MaxPreparedStmts; R8 the shared PREPARE runs on the connection's context, not on the winner's." +
-			" R5 also: executeBatch remembers each statement under the prepared id it actually sends (the id returned by prepareStatement for that entry).",
+			" R5 also: executeBatch remembers each statement under the prepared id it actually sends (the id returned by prepareStatement for that entry)." +
+			" R7 also: the eviction comparison fits its position (Len > Max after the insertion, Len >= Max before it).",
 		NotDecided: "'one PREPARE for N concurrent executors' over all interleavings of lookups, completion and eviction; that the id and metadata used by an execution belong to the same cache entry under concurrent eviction.",
 		Rules: []*Rule{
 			{ID: "C14.R1", Floor: 8, Doc: "lru.Cache methods only under preparedLRU.mu / inside the execIfMissing callback on its parameter", Run: c14r1},
